@@ -46,6 +46,7 @@ void ftime_ctor0(struct ftime_m *f) { f->_value = nondet_long(); }
 _Bool fbool_call(const struct fbool_m *f) { return f->_value; }
 const long *ftime_call(const struct ftime_m *f) { return &f->_value; }
 _Bool tick_gt(const long *a, const long *b) { return *a > *b; }
+_Bool tick_lt(const long *a, const long *b) { return *a < *b; }
 _Bool str_eq(const long *a, const long *b) { return *a == *b; }
 _Bool str_ne(const long *a, const long *b) { return *a != *b; }
 void oss_ctor(struct oss_m *o) { }
@@ -113,6 +114,7 @@ void h_gap_is_not_fatal(void)
   __exc = 0;
   _Bool fails = session_enforce(&s, seq, &m);
   if (state0 == E_FIX8_States_SessionStates_st_continuous) __CPROVER_assert(!__exc && fails, "C20.gap_in_normal_operation_is_withheld_not_fatal");
+  if (state0 == E_FIX8_States_SessionStates_st_continuous) __CPROVER_assert(g_sent_count == 1 && g_sent_is_resend && g_sent_resend_begin == expected && s._next_receive_seq == expected, "C20.gap_is_answered_by_one_resend_request_from_the_expected_number");
   if (state0 == E_FIX8_States_SessionStates_st_resend_request_sent) __CPROVER_assert(!__exc && fails, "C20.further_gap_message_while_resend_pending_is_withheld_not_fatal");
   if (on_logon) __CPROVER_assert(!__exc, "C20.logon_with_a_higher_number_is_not_fatal");
   VACUITY_PROBE();
@@ -162,7 +164,7 @@ UNIT = dict(
             'FIX8::sending_time::Field': 'ftime_ctor0', 'FIX8::orig_sending_time::Field': 'ftime_ctor0',
             'FIX8::sending_time::operator()': 'ftime_call', 'FIX8::orig_sending_time::operator()': 'ftime_call',
             'FIX8::orig_sending_time::print': dict(c='ftime_print', sig='void (std::ostream &) const'),
-            'operator>': 'tick_gt', 'operator==': 'str_eq', 'operator!=': 'str_ne',
+            'operator>': 'tick_gt', 'operator<': 'tick_lt', 'operator==': 'str_eq', 'operator!=': 'str_ne',
             'std::basic_ostringstream<char>::basic_ostringstream': 'oss_ctor', 'std::basic_ostringstream<char>::str': 'oss_str',
             SES + '::generate_resend_request': dict(c='ses_generate_resend_request', sig='FIX8::Message *(const unsigned int, const unsigned int)'),
             SES + '::send': dict(c='ses_send', sig='bool (FIX8::Message *, bool, unsigned int, bool)'), SES + '::state_change': 'ses_state_change',
